@@ -91,7 +91,7 @@ Proof.
   rewrite Q2, G2, C2. repeat split; auto.
   intros id t J L. destruct (s_rq _ St _ _ J) as (x & G & Sx & _). destruct (A1 id t J L) as (x1 & Gx1 & An1 & Fi1).
   assert (E2 : effo (CP:=cp_any) any_item c1 (cl_rl_frame dec_field c1 fr)).
-  { apply effo_rl_frame; try (intros; exact I); [intro; exact I | exact S1|].
+  { apply effo_rl_frame; try (intros; exact I); [exact S1|].
     apply (an_ok_effo (CP:=cp_ga) (fun _ => True) c c1 A E1). }
   destruct (e_ctx _ _ _ (proj1 E2) _ _ Gx1) as (x' & Gx' & V2). exists x, x'. repeat split; auto.
   - apply (cev_finished _ _ V2 Fi1).
@@ -161,7 +161,7 @@ Proof. intros sid er A B. left. auto. Qed.
 Lemma sum_step c e : inv c -> step_sum (CP:=cp_step c e) dec_field c e (step c e).
 Proof.
   intro Hi. apply step_moves; [exact Hi|]. intros i Ei. repeat split; try (intros; exact I).
-  - intro sid. right. left. reflexivity.
+  - intros fr Hf RL NC c1 _ _. right. left. reflexivity.
   - intros fr Hf K Z RL NC id L. right. right. split; [reflexivity|]. exists fr. subst i. auto 10.
 Qed.
 
